@@ -52,7 +52,9 @@ temporary L*prod(shape)*n sits just below / just above 2^20 and at 1.5, 3, 5 x 2
 two sizes per (L, shape), rotating, a strided sample subset incl. first/last/power-of-two
 boundaries, all rays; thorough: 14 sizes up to 8 x 2^20, every sample) against the Jakes sum
 computed here ray by ray in chunks, and against the same stretch in smaller requests on an
-identically seeded second generator.
+identically seeded second generator; sizes whose temporary crosses 2^22 / 2^23 elements with n not a multiple
+of plausible block lengths (quick: 7 of them); after the large request(s) a 3-sample follow-up request is
+compared with the formula at the following positions and with the twin that got there by small requests.
 Function part: generate_jakes_samples with explicit current_time (6 start positions x chains of
 two calls, n in {1,7,100,4097}) - shape, returned time, values.  RayleighSampleGenerator: shape /
 count clause only (generate, skip, shape setter, get_similar_fading_generator).
@@ -987,6 +989,7 @@ LARGE_L = (5, 8, 10, 12, 20)
 LARGE_SHAPES = (None, (2,), (3, 2), (4, 4))
 LARGE_UNIT = 2 ** 20
 LARGE_WINDOW = 384        # samples per window regenerated by the second generator
+LARGE_FOLLOW_UP = 3       # size of the request issued after the large one(s)
 
 
 def large_cases(seed, thorough):
@@ -995,12 +998,17 @@ def large_cases(seed, thorough):
     small = ((1.0, 0), (1.0, 1), (1.5, 0))
     big = ((3.0, 0), (5.0, 0))
     extra = ((2.0, 0), (2.0, 1), (3.0, 1), (4.0, 0), (4.0, 1), (5.0, 1), (6.0, 0), (7.0, 0), (8.0, 0))
+    # temporaries crossing 2**22 and 2**23 elements, n NOT a multiple of a plausible block length
+    # (2**22 // (L*prod(shape)) +- 1, 1.5 x, 2.3 x; 2**23 +, 1.5 x)
+    cross = ((4.0, 1), (6.0, 0), (9.2, 0), (8.0, 1))
+    cross_thorough = ((4.0, -1), (9.2, 0), (8.0, 1), (12.0, 0))
     out = []
     i = 0
     for L in LARGE_L:
         for shape in LARGE_SHAPES:
             per = L * int(np.prod(shape_tuple(shape), dtype=int))
-            targets = (small + big + extra) if thorough else (small[i % 3], big[i % 2])
+            targets = (small + big + extra + cross_thorough) if thorough else \
+                ((small[i % 3], big[i % 2]) + ((cross[(i // 3) % 4],) if i % 3 == 0 else ()))
             for mult, plus in targets:
                 n = int(mult * LARGE_UNIT) // per + plus
                 cfg = dict(Fd=100.0, Ts=1e-3, L=L, shape=shape, index=4000 + i, rs_seed=55000 + 1000 * seed + i,
@@ -1063,6 +1071,7 @@ def large_case(chk, cfg, n, label, full):
     # the same stretch in smaller requests on a second generator with the same seed
     f = new_generator(cfg)
     pos = 1
+    twin_ok = True
     starts = sorted(set([1, max(1, n // 2 - LARGE_WINDOW // 2), max(1, n - LARGE_WINDOW + 1)])) if not full \
         else list(range(1, n + 1, 4096))
     win = LARGE_WINDOW if not full else 4096
@@ -1079,6 +1088,7 @@ def large_case(chk, cfg, n, label, full):
         if w.shape != shp + (m,) or not np.all(np.abs(w - s[..., a - 1:a - 1 + m]) <= tol):
             chk.fail(("generate_more_samples", "large_single_request", "differs_from_smaller_requests"), case,
                      observed=s[..., a - 1:a + 2].ravel()[:3], expected=w.ravel()[:3])
+            twin_ok = False
             break
     # a second request of the same size must not touch the array returned by the first one
     if full or per * n <= 1.6 * LARGE_UNIT:
@@ -1094,6 +1104,37 @@ def large_case(chk, cfg, n, label, full):
         elif np.shares_memory(s, s2):
             chk.fail(("returned_array", "shares_memory_with_a_later_result"), case)
         del s2
+    # the POSITION after the large request(s): a small follow-up request must continue the process exactly there
+    p_next = int(st_pos(g_requests=(2 if (full or per * n <= 1.6 * LARGE_UNIT) else 1), n=n))
+    g.generate_more_samples(LARGE_FOLLOW_UP)
+    s3 = np.asarray(g.get_samples())
+    chk.count("eval_large_request_follow_ups")
+    tol3 = value_tol(cfg, p_next + LARGE_FOLLOW_UP)
+    if s3.shape != shp + (LARGE_FOLLOW_UP,):
+        chk.fail(("generate_more_samples", "after_large_request", "wrong_shape"), case, observed=s3.shape,
+                 expected=shp + (LARGE_FOLLOW_UP,))
+        return
+    if not no_formula(chk, phi):
+        ref3 = jakes_reference(cfg, phi, psi, p_next, LARGE_FOLLOW_UP)
+        if not np.all(np.abs(s3 - ref3) <= tol3):
+            chk.fail(("generate_more_samples", "after_large_request", "value_vs_jakes_formula"), case,
+                     observed="follow-up generate(%d) at position %d after generate(%d): %r"
+                     % (LARGE_FOLLOW_UP, p_next, n, s3.ravel()[:2]), expected=ref3.ravel()[:2])
+    if twin_ok:
+        # the twin reached the same position through small requests and skips only
+        if p_next > pos:
+            f.skip_samples_for_next_generation(p_next - pos)
+        f.generate_more_samples(LARGE_FOLLOW_UP)
+        w3 = np.asarray(f.get_samples())
+        chk.count("eval_differential_smaller_requests")
+        if w3.shape != s3.shape or not np.all(np.abs(w3 - s3) <= tol3):
+            chk.fail(("generate_more_samples", "after_large_request", "differs_from_twin_reaching_the_position_"
+                      "by_small_requests"), case, observed=s3.ravel()[:2], expected=w3.ravel()[:2])
+
+
+def st_pos(g_requests, n):
+    """reference model: position after the constructor's sample and g_requests requests of n samples"""
+    return 1 + g_requests * n
 
 
 def run_config(chk, cfg, depth):
